@@ -31,6 +31,10 @@ Record case := mk {
   loop : Z                                   (* acc := Empty(); for x: acc = Combine(acc, x)  in Go *)
 }.
 
+(* 1 .. n as a list (volume cases name their input by its length) *)
+Fixpoint zfrom (fuel : nat) (z : Z) : list Z := match fuel with O => [] | S f => z :: zfrom f (z + 1) end.
+Definition upto (n : N) : list Z := zfrom (N.to_nat n) 1.
+
 Definition in_int64 (z : Z) : bool := (min_int <=? z) && (z <=? max_int).
 Definition left_fold (c : case) : Z := fold_left (m_combine (monoid c)) (input c) (m_empty (monoid c)).
 (* every intermediate accumulator of the left fold fits int64 (so Z and Go's int agree) *)
